@@ -125,3 +125,13 @@ Print Assumptions C10_window_lower.
 Print Assumptions C10_window_upper.
 Print Assumptions C10_material_exact.
 Print Assumptions C10_material_dead_positions.
+
+(* tie to the source: the constants the model copies from the Go source equal what the running engine reports
+   (gen/Tables_gen.v is regenerated on every run by `verifh dump-tables`) *)
+From FG.gen Require Import Tables_gen.
+From Coq Require Import ZArith NArith. (* consts *)
+From FG Require ConstTie.
+From FG Require PosImpl.
+Theorem C10_model_constants_dumped :
+  PosImpl.GamePhaseMax = c_game_phase_max /\ Z.of_nat PosImpl.MaxHistory = c_max_moves.
+Proof. exact ConstTie.posimpl_constants_dumped. Qed.
